@@ -160,12 +160,42 @@ def _exec_chunk(items):
                         + [('sticky_notes[%d]' % (i + 1), n) for i, n in enumerate(db.sticky_notes)]
                     if db.project:
                         elems.append(('project', db.project))
-                for name, o in elems:
-                    text = getattr(o, kind)
+                texts = [(name, getattr(o, kind)) for name, o in elems]
+                same: Dict[str, int] = {}
+                for _, text in texts:
+                    same[text] = same.get(text, 0) + 1        # two distinct elements may render alike (mirror-twin references)
+                for name, text in texts:
                     if text:
-                        counts.append(['%s.%s' % (name, kind), whole.count(text)])
+                        counts.append(['%s.%s' % (name, kind), whole.count(text), same[text]])
+        s_end = pj.project_db(db)
+        later = ''
+        if not detached and it['route'] == 'built':
+            # the same edits on this database (its renderings were evaluated above) and on a twin that was never rendered
+            twin = builder.build(it['model'], **kw)
+            for d in (db, twin):
+                for t in d.tables:
+                    t.name = (t.name or '') + '_later'
+                    if it['tid'] % 3 == 0:
+                        t.schema = 'later'
+                    for col in t.columns[:2]:
+                        col.name = (col.name or '') + '_later'
+                        if isinstance(col.type, str):
+                            col.type = 'later_type'
+                for e_ in d.enums:
+                    e_.name = (e_.name or '') + '_later'
+            for kind in ('sql', 'dbml'):
+                pairs = [('db', db, twin)] + [('tables[%d]' % (i + 1), a, b) for i, (a, b) in enumerate(zip(db.tables, twin.tables))] \
+                    + [('refs[%d]' % (i + 1), a, b) for i, (a, b) in enumerate(zip(db.refs, twin.refs))]
+                for name, a, b in pairs:
+                    def txt(o):
+                        try:
+                            return getattr(o, kind)
+                        except Exception as ex:
+                            return 'EXC:' + type(ex).__name__
+                    if not later and txt(a) != txt(b):
+                        later = '%s.%s' % (name, kind)
         out.append({'tid': it['tid'], 'model': it['model'], 'cfg': cfg, 'sd': it['seed'], 'obs': obs, 's0': s0,
-                    's_end': pj.project_db(db), 'counts': counts})
+                    's_end': s_end, 'counts': counts, 'later': later})
     return out
 
 
